@@ -31,6 +31,53 @@ CLAIMED = {
         "technique": "Coq proof (lookup/association-list lemmas, sorted-union lemmas) + differential correspondence by vm_compute",
         "design_ref": "DESIGN.md section 4, C02",
     },
+    "C04": {
+        "level": "proof",
+        "text": "Coq theorem C04_roundtrip: for every sweep, batch size or count, shuffle permutation and grow history "
+                "(any order, grouping, repetition) the reap equals the direct sweep and the crop is deleted iff "
+                "clean_up is in effect; the crop invariant, idempotent/local grows, reload = function of the disk state, "
+                "and the shuffle-flag alignment between sow / saved settings / reap (wiring regenerated from "
+                "cropping.py); differential execution of random histories incl. fresh OS processes.",
+        "note": "Trusted: Coq kernel; hand model Model/Crop.v validated by correspondence; translators gen_batch / "
+                "gen_stages; R2 (same seed, same permutation in every process); pickle round trips. No axioms.",
+        "technique": "Coq proof (invariant + induction over grow histories, association-list lemmas) + translated wiring + differential op-sequence correspondence",
+        "design_ref": "DESIGN.md section 4, C04",
+    },
+    "C08": {
+        "level": "proof",
+        "text": "Coq theorems: the crop invariant (every result file is the whole result of its own batch) holds after "
+                "every history of grows with arbitrary failures, deletions, check_bad and re-sows; finished = successful "
+                "grow since the last deletion; reported numbers, missing ids and ready flag as functions of the finished "
+                "set; grow is local; failed grows write nothing; grow_missing makes the crop ready; re-sow keeps results. "
+                "Differential execution of random operation sequences on real crop directories with a ghost-state oracle.",
+        "note": "Trusted: Coq kernel; hand model Model/Crop.v; GenReap bridge for the ready test and missing range; "
+                "crash-free histories (torn files: C10/C11). No axioms.",
+        "technique": "Coq proof (invariant by induction over operation histories) + translated predicates + differential op-sequence correspondence",
+        "design_ref": "DESIGN.md section 4, C08",
+    },
+    "C09": {
+        "level": "proof",
+        "text": "Coq theorem C09_partial: for ANY non-empty set of finished batches the allow_incomplete reap equals the "
+                "direct sweep of the function masked by batch-finishedness; nothing deleted by default; later full reap "
+                "exact; refusal without allow_incomplete. Exhaustive differential execution over every proper subset "
+                "of finished batches of crops with up to 7 batches.",
+        "note": "Trusted: Coq kernel; hand model; GenReap bridge (use_default, placeholder size from the batch file, "
+                "clean-up rule, refusal); placeholders compared by kind/shape. No axioms.",
+        "technique": "Coq proof (reaper chain lemma, NoDup masking argument) + translated decision logic + exhaustive subset correspondence",
+        "design_ref": "DESIGN.md section 4, C09",
+    },
+    "C12": {
+        "level": "proof",
+        "text": "The reap entry points are regenerated from cropping.py as ordered stage programs; Coq proves by "
+                "computation over the finite space kind x clean_up x allow_incomplete that every deletion follows the "
+                "last fallible stage (so any failure keeps the crop), that success deletes iff the effective clean_up, "
+                "and that harvester/sampler crops are deleted only after merge-and-save; real failures are injected at "
+                "every stage and a corrected retry must deliver exact data.",
+        "note": "Trusted: Coq kernel (vm_compute on a finite domain stated in the theorems); translator gen_stages "
+                "(statement classification, fail closed); which stages can raise is validated by injection. No axioms.",
+        "technique": "Coq proof by computation on translator-regenerated stage programs + general ordering lemma + failure-injection correspondence",
+        "design_ref": "DESIGN.md section 4, C12",
+    },
     "C07": {
         "level": "proof",
         "text": "Coq theorems (unbounded N, batch size, batch count) over a model of choose_batch_settings and the "
